@@ -43,6 +43,9 @@ def run(tier):
         for p in _drv.PRECS:
             kernels.supernode_sweep_rule(chk, 'C12.kern.sweep', prog, p, cfgname)
         cond.norm_sum_rule(chk, 'C12.norm', prog, cfgname)
+        chk.clause('C12.est', 'the norm estimate behind RCOND is a magnitude by construction')
+        for _p in 'sdcz':
+            cond.estimate_nonnegative_rule(chk, 'C12.est', prog, _p, cfgname)
         kernels.paired_cursor_rule(chk, 'C12.cursor', prog, ['sp_%strsv' % q for q in 'sdcz'], cfgname, floor=4)
         chk.clause('C12.lacon', 'reverse-communication state of ?lacon2 written before read on every call history')
         for p in _drv.PRECS:
